@@ -93,6 +93,14 @@ vecparam = Prog(
     "y",
 )
 
+# scalar location broadcast against a vector scale (the value is a vector, the location is not)
+vecscale = Prog(
+    "vecscale",
+    ("a",),
+    (Site("x", "normal", ("a", "xp.asarray([0.5, 1.5])")), Site("y", "normal", ("x[0] * x[1]", "0.5"))),
+    "y",
+)
+
 # keyword arguments: at a distribution site and at a sub-call
 inner_kw = Prog("inner_kw", ("x", "scale"), (Site("y", "normal", ("x",), (("scale", "scale"),)),), "y")
 kw = Prog(
@@ -261,6 +269,7 @@ FAMILY = {
     "user": (user, [(f32(0.3),)], "quick"),
     "vecparam": (vecparam, [(A(0.1, 0.7),)], "quick"),
     "bounded": (bounded, [(f32(0.3),)], "quick"),
+    "vecscale": (vecscale, [(f32(0.3),)], "quick"),
     "kw": (kw, [(f32(0.3),)], "quick"),
     "vmap_kw": (vmap_kw, [(A(0.1, 0.7),)], "quick"),
     "vmap_kwsite": (vmap_kwsite, [(A(0.1, 0.7), A(0.5, -2.0))], "quick"),
@@ -304,6 +313,7 @@ ALT_ARGS = {
     "user": [(f32(-1.2),)],
     "vecparam": [(A(0.5, -0.4),)],
     "bounded": [(f32(-1.2),)],
+    "vecscale": [(f32(-1.2),)],
     "kw": [(f32(-1.2),)],
     "vmap_kw": [(A(0.5, -0.4),)],
     "vmap_kwsite": [(A(0.5, -0.4), A(1.0, 0.2))],
